@@ -60,8 +60,9 @@ type scenario struct {
 // freeCase: N goroutines, released together from a barrier, call Close truly in parallel (outside any
 // synctest bubble, which would run them one at a time) before Run, during Run or after Run returned.
 type freeCase struct {
-	Place string `json:"place"` // before | during | after
-	N     int    `json:"n"`
+	Place string `json:"place"` // before | during | after (parallel Close) ; run (grace<=0) ; runs (parallel Run) ; adds (parallel Add)
+	N     int    `json:"n"`    // parallel callers
+	K     int    `json:"k,omitempty"` // adds: runners per Add call
 }
 
 // effGrace is the grace period the contract reasons with: -1 when none is configured; a configured period that is
@@ -708,6 +709,136 @@ func runFreeGrace(sc scenario) []rec {
 	return x.evs
 }
 
+var closedCh = func() chan struct{} { c := make(chan struct{}); close(c); return c }()
+
+// newFreeExec prepares a lean free-running execution whose runners return at once (they are released in advance).
+func newFreeExec(sc scenario) *exec {
+	x := &exec{sc: sc, free: true, open: true}
+	x.parkPoint.Store("")
+	x.relR = make([]chan struct{}, sc.NR+1)
+	for i := range x.relR {
+		x.relR[i] = closedCh
+	}
+	return x
+}
+
+// barrier releases n goroutines together: they park on a channel and then line up on a short yielding spin.
+type barrier struct {
+	gate  chan struct{}
+	start atomic.Bool
+	ready sync.WaitGroup
+	done  sync.WaitGroup
+}
+
+func (b *barrier) goEach(n int, f func(k int)) {
+	b.gate = make(chan struct{})
+	for k := 0; k < n; k++ {
+		b.ready.Add(1)
+		b.done.Add(1)
+		go func() {
+			defer b.done.Done()
+			b.ready.Done()
+			<-b.gate
+			for !b.start.Load() {
+				runtime.Gosched()
+			}
+			f(k)
+		}()
+	}
+	b.ready.Wait()
+	close(b.gate)
+	b.start.Store(true)
+	b.done.Wait()
+}
+
+// runFreeRuns: N goroutines call Run on the same manager at the same moment (real goroutines; the runners return at
+// once).  Exactly one call may run the manager - every runner started exactly once - the others are rejected.
+func runFreeRuns(sc scenario) []rec {
+	x := newFreeExec(sc)
+	concurrency.VerifHook = x.hook
+	defer func() { concurrency.VerifHook = nil }()
+	var rs []concurrency.Runner
+	for i := 1; i <= sc.R0; i++ {
+		rs = append(rs, x.runner(i))
+	}
+	if sc.Kind == "rm" {
+		x.rm = concurrency.NewRunnerManager(rs...)
+	} else {
+		x.rcm = concurrency.NewRunnerCloserManager(theLog(), nil, rs...)
+	}
+	for id := 1; id <= sc.Free.N; id++ {
+		x.ev("runcall", tv.M{"id": id}) // announced before the barrier: the recorder's mutex would serialise the calls
+	}
+	var b barrier
+	b.goEach(sc.Free.N, func(k int) {
+		defer x.caught("Run")
+		var err error
+		if x.rm != nil {
+			err = x.rm.Run(context.Background())
+		} else {
+			err = x.rcm.Run(context.Background())
+		}
+		x.ev("runreturn", tv.M{"id": k + 1, "rejected": errors.Is(err, concurrency.ErrManagerAlreadyStarted), "errs": leafIDs(err)})
+	})
+	x.ev("q", nil)
+	return x.evs
+}
+
+// runFreeAdds: G goroutines call Add (K runners each) on the same manager at the same moment, then Run is called:
+// every runner whose Add returned nil has to be started and waited for.
+func runFreeAdds(sc scenario) []rec {
+	x := newFreeExec(sc)
+	concurrency.VerifHook = x.hook
+	defer func() { concurrency.VerifHook = nil }()
+	if sc.Kind == "rm" {
+		x.rm = concurrency.NewRunnerManager()
+	} else {
+		x.rcm = concurrency.NewRunnerCloserManager(theLog(), nil)
+	}
+	g, k := sc.Free.N, sc.Free.K
+	var b barrier
+	b.goEach(g, func(n int) {
+		defer x.caught("Add")
+		rs := make([]concurrency.Runner, k)
+		for j := range rs {
+			rs[j] = x.runner(n*k + j + 1)
+		}
+		err := x.add(rs...)
+		for j := range rs {
+			x.ev("addrunner", tv.M{"i": n*k + j + 1, "ok": err == nil})
+		}
+	})
+	x.ev("runcall", tv.M{"id": 1})
+	func() {
+		defer x.caught("Run")
+		var err error
+		if x.rm != nil {
+			err = x.rm.Run(context.Background())
+		} else {
+			err = x.rcm.Run(context.Background())
+		}
+		x.ev("runreturn", tv.M{"id": 1, "rejected": errors.Is(err, concurrency.ErrManagerAlreadyStarted), "errs": leafIDs(err)})
+	}()
+	x.ev("q", nil)
+	return x.evs
+}
+
+// summary of a free-running trace: what happened, up to the interleaving (traces with the same summary are judged once)
+func summary(sc scenario, evs []rec) string {
+	cnt := map[string]int{}
+	for _, e := range evs {
+		n := e.name
+		if ok, has := e.m["ok"]; has {
+			n += fmt.Sprint(ok)
+		}
+		if rj, has := e.m["rejected"]; has {
+			n += fmt.Sprint(rj, len(e.m["errs"].([]string)))
+		}
+		cnt[n]++
+	}
+	return fmt.Sprint(sc.Tags, sc.Kind, sc.Grace, sc.Free.N, sc.Free.K, sc.R0, cnt)
+}
+
 func freeScenarios(rng *rand.Rand) []scenario {
 	var out []scenario
 	rounds := ev.Pick(20000, 100000)
@@ -745,6 +876,11 @@ func recordLevel(b *tv.Batch, sc scenario, evs []rec, hooks bool) int {
 	nruns, ncl := countOps(sc, "run")+countOps(sc, "runpark"), countOps(sc, "close")
 	if sc.Free != nil {
 		nruns, ncl = 1, sc.Free.N
+		if sc.Free.Place == "runs" {
+			nruns, ncl = sc.Free.N, 0
+		} else if sc.Free.Place == "adds" || sc.Free.Place == "run" {
+			ncl = 0
+		}
 	}
 	tr := b.Start(tv.M{"kind": sc.Kind, "G": sc.effGrace(), "pdl": sc.PDL, "nr": sc.NR, "nc": sc.NC, "r0": sc.R0,
 		"nruns": nruns, "ncl": ncl})
@@ -1144,6 +1280,9 @@ func generate(rng *rand.Rand) []scenario {
 								if thorough && nr == 3 && nc == 3 && rng.Intn(3) != 0 {
 									continue
 								}
+								if !thorough && nr+nc >= 3 && rng.Intn(3) == 0 {
+									continue // quick tier: two thirds of the larger cells
+								}
 								cr := randTuple(rng, cClasses, nc)
 								add(params{kind: "rcm", nr: nr, nc: nc, rres: randTuple(rng, rClasses, nr), cres: cr, ctype: ctypes(rng, cr, len(out)),
 									rorder: ro, corder: co, trigger: pick(rng, triggers), closeAt: ca, grace: g, late: l,
@@ -1210,7 +1349,7 @@ func generate(rng *rand.Rand) []scenario {
 
 	// (4) larger random scenarios
 	maxN := ev.Pick(3, 4)
-	for n := 0; n < ev.Pick(3000, 30000); n++ {
+	for n := 0; n < ev.Pick(2000, 30000); n++ {
 		nr, nc := rng.Intn(maxN+1), rng.Intn(maxN+1)
 		cr := randTuple(rng, cClasses, nc)
 		add(params{kind: "rcm", nr: nr, nc: nc, rres: randTuple(rng, rClasses, nr), cres: cr, ctype: ctypes(rng, cr, n),
@@ -1245,6 +1384,12 @@ func findingKey(sc scenario, why string) string {
 		// Run closed closeFatalShutdown
 		return k + ":grace-nonpositive-zero-closers:free-running"
 	}
+	if sc.hasTag("parallel-run") {
+		return k + ":parallel-run-calls"
+	}
+	if sc.hasTag("parallel-add") {
+		return k + ":parallel-add-calls"
+	}
 	if sc.free {
 		k += ":parallel-calls"
 	}
@@ -1272,13 +1417,104 @@ func TestCheck(t *testing.T) {
 	}()
 	rng := rand.New(rand.NewSource(ev.Seed()))
 
+	type freeTrace struct {
+		sc  scenario
+		evs []rec
+	}
+	var fts []freeTrace
+	fhung := 0
+	// 0. the free-running families come first, while the machine is not yet busy with model checking: they need real
+	//    parallelism.  Parallel Close calls with real goroutines; identical traces are judged once.
+	tf := time.Now()
+	frees := freeScenarios(rng)
+	seen := map[string]bool{}
+	fdistinct, fpanic, fplain := 0, 0, 0
+	for _, sc := range frees {
+		evs, h := runFree(sc)
+		if h {
+			fhung++
+		}
+		one := &tv.Batch{}
+		record(one, sc, evs)
+		key := fmt.Sprintf("%d/%d/%d/", sc.NR, sc.NC, sc.Free.N) + strings.Join(one.TraceStrings(0), "\n")
+		if seen[key] {
+			continue
+		}
+		seen[key] = true
+		fdistinct++
+		// every distinct trace in which a call panicked goes to TLC (up to a cap), and the first distinct others
+		panicked := false
+		for _, ev1 := range evs {
+			panicked = panicked || ev1.name == "panic"
+		}
+		if panicked {
+			if fpanic++; fpanic > 40 {
+				continue
+			}
+		} else if fplain++; fplain > ev.Pick(1200, 12000) {
+			continue
+		}
+		fts = append(fts, freeTrace{sc, evs})
+		e.Nontrivial(fmt.Sprintf("free %v %v", sc, key))
+	}
+	tClose := time.Since(tf)
+	// ... and the lean families, many rounds each: a grace period of zero (and less) with nothing to run or close;
+	// parallel Run calls; parallel Add calls followed by Run.  Traces with the same summary (same events up to the
+	// interleaving) are judged once, plus a regular sample.
+	graceRounds, runRounds, addRounds := ev.Pick(200000, 2000000), ev.Pick(250000, 2000000), ev.Pick(60000, 600000)
+	sampled := 0
+	lean := func(sc scenario, evs []rec, r int) {
+		key := summary(sc, evs)
+		if seen[key] && !(r%5000 == 0 && sampled < 400) {
+			return
+		}
+		if seen[key] {
+			sampled++
+		}
+		seen[key] = true
+		fdistinct++
+		fts = append(fts, freeTrace{sc, evs})
+		e.Nontrivial(key)
+	}
+	for r := 0; r < graceRounds; r++ {
+		sc := scenario{Kind: "rcm", Tags: []string{"free-running", "grace-nonpositive-nothing-to-close"}, Grace: -20 * (r % 2), PDL: -1, free: true,
+			RRes: []string{}, CRes: []string{}, CType: []int{}, Free: &freeCase{Place: "run", N: 0}}
+		lean(sc, runFreeGrace(sc), r)
+	}
+	tGrace := time.Since(tf) - tClose
+	for r := 0; r < runRounds; r++ {
+		nr := 1 + r%2
+		sc := scenario{Kind: []string{"rm", "rm", "rm", "rcm"}[(r/2)%4], Tags: []string{"free-running", "parallel-run"}, R0: nr, NR: nr, Grace: -1, PDL: -1, free: true,
+			RRes: []string{"nil", "err"}[:nr], CRes: []string{}, CType: []int{}, Free: &freeCase{Place: "runs", N: []int{3, 4, 4, 2}[(r/8)%4]}}
+		lean(sc, runFreeRuns(sc), r)
+	}
+	tRuns := time.Since(tf) - tClose - tGrace
+	for r := 0; r < addRounds; r++ {
+		g, k := 2+r%3, 1+(r/3)%2
+		rr := make([]string, g*k)
+		for i := range rr {
+			rr[i] = []string{"nil", "err"}[i%2]
+		}
+		sc := scenario{Kind: []string{"rm", "rcm"}[(r/6)%2], Tags: []string{"free-running", "parallel-add"}, R0: 0, NR: g * k, Grace: -1, PDL: -1, free: true,
+			RRes: rr, CRes: []string{}, CType: []int{}, Free: &freeCase{Place: "adds", N: g, K: k}}
+		lean(sc, runFreeAdds(sc), r)
+	}
+	tAdds := time.Since(tf) - tClose - tGrace - tRuns
+	e.Set("free_running_parallel_run_rounds", int64(runRounds))
+	e.Set("free_running_parallel_add_rounds", int64(addRounds))
+	e.Set("free_running_grace_zero_rounds", int64(graceRounds))
+	fmt.Printf("free-running family: %d rounds of parallel Close calls (%s), %d rounds of grace<=0 shutdowns (%s), %d rounds of parallel Run calls (%s), %d rounds of parallel Add calls (%s); %d traces to TLC\n",
+		len(frees), tClose.Round(time.Millisecond), graceRounds, tGrace.Round(time.Millisecond), runRounds, tRuns.Round(time.Millisecond), addRounds, tAdds.Round(time.Millisecond), fdistinct)
+	e.Set("free_running_rounds", int64(len(frees)))
+	e.Set("free_running_distinct_traces", int64(fdistinct))
+
 	// 1. model checking runs in the background while the real code is driven
 	var wg sync.WaitGroup
 	// quick: one small configuration; thorough: three larger ones (3 runners x 2 closers; all result classes on
 	// 2 x 1; 1 runner x 3 closers), side by side
 	mcCfgs := ev.Pick([]string{"MC_small.cfg"}, []string{"MC_big.cfg", "MC_big_classes.cfg", "MC_big_closers.cfg"})
 	mcs := make([]tlc.Result, len(mcCfgs))
-	defects := []string{"MC_defect_closenonatomic.cfg", "MC_defect_gracezero_nofatal.cfg", "MC_defect_gracezero_race.cfg", "MC_defect_gracezero_window.cfg", "MC_defect_closercanceled.cfg", "MC_defect_skipctxdone.cfg", "MC_defect_addnocheck.cfg", "MC_defect_addcloser.cfg", "MC_defect_errsearly.cfg", "MC_defect_releaselate.cfg", "MC_defect_filterctxerr.cfg"}
+	defects := []string{"MC_defect_closenonatomic.cfg", "MC_defect_gracezero_nofatal.cfg", "MC_defect_gracezero_race.cfg", "MC_defect_gracezero_window.cfg", "MC_defect_closercanceled.cfg", "MC_defect_skipctxdone.cfg", "MC_defect_runcheckthenset.cfg", "MC_defect_addnocheck.cfg", "MC_defect_addcloser.cfg", "MC_defect_errsearly.cfg", "MC_defect_releaselate.cfg", "MC_defect_filterctxerr.cfg"}
 	dres := make([]tlc.Result, len(defects))
 	for i := range mcCfgs {
 		wg.Add(1)
@@ -1302,7 +1538,7 @@ func TestCheck(t *testing.T) {
 	const chunk = 30000
 	var batches []*tv.Batch
 	var firstOf []int // index of the first scenario of every batch
-	dead, hung := 0, 0
+	dead, hung := 0, fhung
 	// a sample of the runs is also recorded at hook level and checked against the implementation-shaped model itself
 	hb := &tv.Batch{}
 	var hbOf []int
@@ -1334,74 +1570,17 @@ func TestCheck(t *testing.T) {
 		}
 	}
 	nSync := len(scs)
-	// 2b. free-running family: parallel Close calls with real goroutines.  Identical traces are judged once.
-	tf := time.Now()
-	frees := freeScenarios(rng)
-	seen := map[string]bool{}
-	fdistinct, fpanic, fplain := 0, 0, 0
-	for _, sc := range frees {
-		evs, h := runFree(sc)
-		if h {
-			hung++
-		}
-		one := &tv.Batch{}
-		record(one, sc, evs)
-		key := fmt.Sprintf("%d/%d/%d/", sc.NR, sc.NC, sc.Free.N) + strings.Join(one.TraceStrings(0), "\n")
-		if seen[key] {
-			continue
-		}
-		seen[key] = true
-		fdistinct++
-		// every distinct trace in which a call panicked goes to TLC (up to a cap), and the first distinct others
-		panicked := false
-		for _, ev1 := range evs {
-			panicked = panicked || ev1.name == "panic"
-		}
-		if panicked {
-			if fpanic++; fpanic > 40 {
-				continue
-			}
-		} else if fplain++; fplain > ev.Pick(1200, 12000) {
-			continue
-		}
+	// 2b. the traces of the free-running families (driven first, see above) join the batches
+	for _, ft := range fts {
 		if len(scs)%chunk == 0 {
 			batches = append(batches, &tv.Batch{})
 			firstOf = append(firstOf, len(scs))
 		}
-		batches[len(batches)-1].AppendTrace(one.Trace(0))
-		scs = append(scs, sc)
-		e.Nontrivial(fmt.Sprintf("free %v %v", sc, key))
+		record(batches[len(batches)-1], ft.sc, ft.evs)
+		scs = append(scs, ft.sc)
 	}
-	tClose := time.Since(tf)
-	// ... and a grace period of zero (and less) with nothing to run or close, many rounds
-	graceRounds := ev.Pick(200000, 2000000)
-	for r := 0; r < graceRounds; r++ {
-		sc := scenario{Kind: "rcm", Tags: []string{"free-running", "grace-nonpositive-nothing-to-close"}, Grace: -20 * (r % 2), PDL: -1, free: true,
-			RRes: []string{}, CRes: []string{}, CType: []int{}, Free: &freeCase{Place: "run", N: 0}}
-		evs := runFreeGrace(sc)
-		key := fmt.Sprint("grace/", sc.Grace, "/", len(evs))
-		for _, e := range evs {
-			key += "/" + e.name
-		}
-		if seen[key] {
-			continue
-		}
-		seen[key] = true
-		fdistinct++
-		if len(scs)%chunk == 0 {
-			batches = append(batches, &tv.Batch{})
-			firstOf = append(firstOf, len(scs))
-		}
-		record(batches[len(batches)-1], sc, evs)
-		scs = append(scs, sc)
-		e.Nontrivial(key)
-	}
-	e.Set("free_running_grace_zero_rounds", int64(graceRounds))
-	fmt.Printf("free-running family: %d rounds of parallel Close calls and %d rounds of grace<=0 shutdowns in %s (%s + %s), %d distinct traces\n", len(frees), graceRounds, time.Since(tf).Round(time.Millisecond), tClose.Round(time.Millisecond), (time.Since(tf) - tClose).Round(time.Millisecond), fdistinct)
-	e.Set("free_running_rounds", int64(len(frees)))
-	e.Set("free_running_distinct_traces", int64(fdistinct))
 	fmt.Printf("drove %d scenarios on the real code in %s (%d left goroutines blocked in the library)\n", len(scs), time.Since(t0).Round(time.Millisecond), dead)
-	e.Set("evaluations", int64(nSync+len(frees)+graceRounds))
+	e.Set("evaluations", int64(nSync+len(frees)+graceRounds+runRounds+addRounds))
 	byTag := map[string]int{}
 	for _, sc := range scs {
 		byTag["kind="+sc.Kind]++
